@@ -8,28 +8,21 @@ import XotModel.Model.Forest
 
 namespace XotModel
 
-/-- The string of a text node. -/
-def Tree.text? : Tree → Option Str
-  | .node (.text s) _ => some s
-  | _ => none
-
-/-- Put `t` in front of an already merged child list: a text node meeting a text node is joined
-    with it (the content of the second is appended to the first). -/
-def mergeCons (t : Tree) (acc : List Tree) : List Tree :=
-  match t.text?, acc with
-  | some a, b :: rest =>
-    (match b.text? with
-     | some sb => .node (.text (a ++ sb)) t.kids :: rest
-     | none => t :: acc)
-  | _, _ => t :: acc
+/-- Add `t` at the end of an already merged child list: a text node arriving after a text node is
+    absorbed by it (its content is appended; the first node stays). -/
+def snocMerge (A : List Tree) (t : Tree) : List Tree :=
+  match t, A.getLast? with
+  | .node (.text s) _, some (.node (.text ps) pk) => A.dropLast ++ [.node (.text (ps ++ s)) pk]
+  | _, _ => A ++ [t]
 
 mutual
-  /-- Merge every run of adjacent text children, at every level. -/
+  /-- Merge every run of adjacent text children into its first node, at every level. -/
   def mergeAdjacentText : Tree → Tree
-    | .node v ks => .node v (mergeAdjacentTextList ks)
-  def mergeAdjacentTextList : List Tree → List Tree
-    | [] => []
-    | k :: ks => mergeCons (mergeAdjacentText k) (mergeAdjacentTextList ks)
+    | .node v ks => .node v (mergeInto [] ks)
+  /-- Scan the children left to right, `A` = what has been produced so far. -/
+  def mergeInto (A : List Tree) : List Tree → List Tree
+    | [] => A
+    | k :: ks => mergeInto (snocMerge A (mergeAdjacentText k)) ks
 end
 
 /-- What `clone_node` is expected to produce from a source subtree, handles forgotten. -/
@@ -63,5 +56,19 @@ mutual
       let r := copyInto cons K n k
       copyKids cons r.1 r.2 ks
 end
+
+/-- The whole clone of a source subtree in a store whose next free handle is `n`, and the next
+    free handle afterwards: a document gets handle `n`; an element `n + 1` (`n` is the temporary
+    top element of `clone_node`, removed at the end); any other node is copied alone. -/
+def copyRoot (cons : Bool) (n : Nat) : HTree → HTree × Nat
+  | .node _ v ks =>
+    match v with
+    | .document =>
+      let r := copyKids cons [] (n + 1) ks
+      (.node n .document r.1, r.2)
+    | .element _ =>
+      let r := copyKids cons [] (n + 2) ks
+      (.node (n + 1) v r.1, r.2)
+    | _ => (.node n v [], n + 1)
 
 end XotModel
